@@ -23,7 +23,7 @@ import z3
 
 VERIF = Path(__file__).resolve().parent.parent
 REPO = Path(os.environ.get('VERIF_REPO', '/repo'))
-EVIDENCE_DIR = VERIF / 'evidence'
+EVIDENCE_DIR = Path(os.environ['VERIF_EVIDENCE_DIR']) if os.environ.get('VERIF_EVIDENCE_DIR') else VERIF / 'evidence'  # (scratch runs on seeded copies write elsewhere)
 REPLAY_DIR = VERIF / 'replays'
 
 Z3_TIMEOUT_MS = int(os.environ.get('VERIF_Z3_TIMEOUT_MS', '40000'))
